@@ -94,6 +94,67 @@ example : (rotFromTo (⟨0, 0, 1⟩ : V3 ℚ) ⟨2 / 7, 3 / 7, 6 / 7⟩).mulVec 
   (C19.from_to_maps _ _ (by norm_num [V3.normSq, V3.dot]) (by norm_num [V3.normSq, V3.dot])
     (by norm_num [V3.dot])).1
 
+/-! ## vectors derived by the constructors (`transform_system`) -/
+
+/-- `Parallel2dGeometry` / `FanBeamGeometry` with `det_pos_init` / `src_to_det_init = p`
+(normalised) and no detector axis given: the rotation used is a rotation taking the default
+`(0,1)` to `p`, and the derived detector axis is the unit vector `(p₁, -p₀)` orthogonal to
+`p` (the default `(1,0)` carried along), for every unit `p` including `-default`. -/
+theorem C19.constructor_frame_2d {K : Type} [CommRing K] (p : V2 K) (hp : p.normSq = 1) :
+    IsRot2 (rotFromTo2 ⟨0, 1⟩ p) ∧
+    (frame2 p).1 = p ∧ (frame2 p).2 = ⟨p.y, -p.x⟩ ∧ (frame2 p).2.normSq = 1 ∧
+    V2.dot (frame2 p).2 p = 0 := by
+  obtain ⟨x, y⟩ := p
+  simp only [V2.normSq, V2.dot] at hp
+  refine ⟨⟨?_, ?_⟩, ?_, ?_, ?_, ?_⟩
+  · ext <;> simp only [rotFromTo2, perp2, V2.dot, M2.transpose, M2.mul, M2.one] <;> grind
+  · simp only [rotFromTo2, perp2, V2.dot, M2.det]; grind
+  · ext <;> simp only [frame2, rotFromTo2, perp2, V2.dot, M2.mulVec] <;> ring
+  · ext <;> simp only [frame2, rotFromTo2, perp2, V2.dot, M2.mulVec] <;> ring
+  · simp only [frame2, rotFromTo2, perp2, V2.dot, V2.normSq, M2.mulVec]; grind
+  · simp only [frame2, rotFromTo2, perp2, V2.dot, M2.mulVec]; ring
+
+example : (frame2 (⟨3 / 5, 4 / 5⟩ : V2 ℚ)).2 = ⟨4 / 5, -(3 / 5)⟩ :=
+  (C19.constructor_frame_2d (⟨3 / 5, 4 / 5⟩ : V2 ℚ) (by norm_num [V2.normSq, V2.dot])).2.2.1
+
+/-- `Parallel3dAxisGeometry` / `ConeBeamGeometry` with rotation axis `a` (normalised, not
+`-e_z`) and nothing else given: the default axis is taken to `a`, the derived
+`det_pos_init` / `src_to_det_init` is a unit vector orthogonal to the axis, the derived
+detector axes are `(pos × a, a)`: an orthonormal right-handed frame like the default one. -/
+theorem C19.constructor_frame_axis {K : Type} [Field K] (a : V3 K) (ha : a.normSq = 1)
+    (hc : 1 + a.z ≠ 0) :
+    let f := frameAxis a
+    f.1 = a ∧ f.2.2.2 = a ∧ V3.dot f.2.1 a = 0 ∧ f.2.1.normSq = 1 ∧ f.2.2.1.normSq = 1 ∧
+    V3.dot f.2.2.1 a = 0 ∧ V3.dot f.2.2.1 f.2.1 = 0 ∧ f.2.2.1 = V3.cross f.2.1 a := by
+  obtain ⟨x, y, z⟩ := a
+  simp only [V3.normSq, V3.dot] at ha
+  simp only at hc
+  refine ⟨?_, ?_, ?_, ?_, ?_, ?_, ?_, ?_⟩
+  all_goals first
+    | (ext <;> simp only [frameAxis, rotFromTo, V3.cross, V3.dot, M3.mulVec] <;> field_simp <;>
+        grind)
+    | (simp only [frameAxis, rotFromTo, V3.cross, V3.dot, V3.normSq, M3.mulVec]; field_simp; grind)
+
+example : (frameAxis (⟨2 / 7, 3 / 7, 6 / 7⟩ : V3 ℚ)).2.1 = ⟨-6 / 91, 82 / 91, -3 / 7⟩ := by
+  simp only [frameAxis, rotFromTo, V3.cross, V3.dot, M3.mulVec]; norm_num
+
+/-- `Parallel3dEulerGeometry` with `det_pos_init = p` (normalised, not `-e_y`) and no
+detector axes given: the default position is taken to `p`; the derived detector axes are
+orthonormal, orthogonal to `p`, with `a0 × a1 = -p` as in the default configuration. -/
+theorem C19.constructor_frame_euler {K : Type} [Field K] (p : V3 K) (hp : p.normSq = 1)
+    (hc : 1 + p.y ≠ 0) :
+    let f := frameEuler p
+    f.1 = p ∧ f.2.1.normSq = 1 ∧ f.2.2.normSq = 1 ∧ V3.dot f.2.1 f.2.2 = 0 ∧
+    V3.dot f.2.1 p = 0 ∧ V3.dot f.2.2 p = 0 ∧ V3.cross f.2.1 f.2.2 = V3.neg p := by
+  obtain ⟨x, y, z⟩ := p
+  simp only [V3.normSq, V3.dot] at hp
+  simp only at hc
+  refine ⟨?_, ?_, ?_, ?_, ?_, ?_, ?_⟩
+  all_goals first
+    | (ext <;> simp only [frameEuler, rotFromTo, V3.cross, V3.dot, V3.neg, M3.mulVec] <;>
+        field_simp <;> grind)
+    | (simp only [frameEuler, rotFromTo, V3.cross, V3.dot, V3.normSq, M3.mulVec]; field_simp; grind)
+
 /-! ## detectors -/
 
 /-- The intrinsic rotation of the curved 3d detectors is a rotation taking the initial axes
